@@ -549,29 +549,60 @@ theorem group_exact_nodup (sets : List (List Nat)) (hnd : ∀ s ∈ sets, s.Nodu
 
 /-! ### from the real prefix to the invariant -/
 
-theorem inv_of_run {fix : Bool} {icount : Int} {ca : Option Nat} {gets : List GetRes} {p : Prep}
+theorem inv_of_run {icount : Int} {ca : Option Nat} {gets : List GetRes} {p : Prep}
     {out : Nat → Outcome} {evs : List Ev} {s : St} (hg : GoodGets gets)
-    (hp : prepare fix icount ca gets = .ok p) (hr : run (initSt p out) evs = some s) : Inv s :=
+    (hp : prepare icount ca gets = .ok p) (hr : run (initSt p out) evs = some s) : Inv s :=
   inv_of_reach (wf_initSt hg hp out) (reach_of_run hr)
 
-theorem items_of_prepare {fix : Bool} {icount : Int} {ca : Option Nat} {gets : List GetRes} {p : Prep}
-    (hp : prepare fix icount ca gets = .ok p) : p.items.length = gets.length := by
+theorem items_of_prepare {icount : Int} {ca : Option Nat} {gets : List GetRes} {p : Prep}
+    (hp : prepare icount ca gets = .ok p) : p.items.length = gets.length := by
   obtain ⟨l, h1, h2, _, _⟩ := prepare_ok hp
   rw [h1, h2]; simp
+
+/-- the (repaired) prefix spawns goroutines only for a non-empty key list -/
+theorem gets_ne_of_prepare {icount : Int} {ca : Option Nat} {gets : List GetRes} {p : Prep}
+    (hp : prepare icount ca gets = .ok p) : gets ≠ [] := by
+  intro h0
+  subst h0
+  simp only [prepare, prepareWith, keyLoop] at hp
+  split at hp
+  · simp at hp
+  · split at hp
+    · simp at hp
+    · simp at hp
 
 theorem items_length_reach {s0 s : St} (h : Reach s0 s) : s.items.length = s0.items.length := by
   induction h with
   | refl => rfl
   | step a b ev _ hs ih => rw [items_length (step_sound hs), ih]
 
-theorem empty_prepare {icount : Int} (h : 0 < icount) (ca : Option Nat) (hc : cancelled ca 0 = false) :
-    prepare false icount ca [] = .ok { items := [], calls := [], gets := 0 } := by
-  have : ¬ icount ≤ 0 := by omega
-  simp [prepare, this, keyLoop, hc, group, groupFrom]
+theorem items_ne_of_run {icount : Int} {ca : Option Nat} {gets : List GetRes} {p : Prep}
+    {out : Nat → Outcome} {evs : List Ev} {s : St}
+    (hp : prepare icount ca gets = .ok p) (hr : run (initSt p out) evs = some s) : s.items ≠ [] := by
+  intro h0
+  have h1 := items_length_reach (reach_of_run hr)
+  have h2 := items_of_prepare hp
+  have h3 := gets_ne_of_prepare hp
+  simp only [initSt] at h1
+  rw [h0] at h1
+  cases gets with
+  | nil => exact h3 rfl
+  | cons g r => simp at h2; simp at h1; omega
 
-theorem empty_prepare_fixed {icount : Int} (h : 0 < icount) (ca : Option Nat) (hc : cancelled ca 0 = false) :
-    prepare true icount ca [] = .error (.emptyOk, 0) := by
+/-- an empty key list never reaches the `select`: it returns at once, after one cleanup, with the
+"no instances" error, the context's error, or `nil`. -/
+theorem empty_prepare_now (icount : Int) (ca : Option Nat) :
+    prepare icount ca [] = .error (if icount ≤ 0 then .noInstances else if cancelled ca 0 then .ctx else .emptyOk, 0) := by
+  by_cases h1 : icount ≤ 0
+  · simp [prepare, prepareWith, h1]
+  · by_cases h2 : cancelled ca 0 = true
+    · simp [prepare, prepareWith, h1, keyLoop, h2]
+    · simp [prepare, prepareWith, h1, keyLoop, h2]
+
+/-- HISTORY (before the repair): the empty key list went on to the `select`. -/
+theorem empty_prepare_prefix {icount : Int} (h : 0 < icount) (ca : Option Nat) (hc : cancelled ca 0 = false) :
+    preparePreFix icount ca [] = .ok { items := [], calls := [], gets := 0 } := by
   have : ¬ icount ≤ 0 := by omega
-  simp [prepare, this, keyLoop, hc]
+  simp [preparePreFix, prepareWith, this, keyLoop, hc, group, groupFrom]
 
 end PfC10
